@@ -2,15 +2,18 @@
 
 Engine E1 (tasks) with fault injection at the observer seam: a real LogPublisher
 with up to 6 recording observers.  The tape decides, per delivery, whether an
-observer raises and whether it re-entrantly emits another event; between
-emissions observers are added / removed.  One observer forwards to a real
-FilteringLogObserver(LogLevelFilterPredicate) whose namespace levels the tape
-reconfigures; one forwards to a real LimitedHistoryLogObserver that is replayed.
+observer raises and whether it re-entrantly emits another event (from inside the
+delivery of an ordinary event or of a failure report); between emissions observers
+are added / removed.  Up to three real FilteringLogObserver(LogLevelFilterPredicate)
+pairs are alive at once (built at the start or in mid-run), each fed by one observer,
+each with its own default and namespace levels which the tape reconfigures and
+queries interleaved; one observer forwards to a real LimitedHistoryLogObserver that
+is replayed.
 Oracles: (1) per event (original, re-entrant, or failure report) the list of
 observers that received it equals the expected list, exactly once each, in
 registration order; a failure report goes to every observer of the failed
-delivery except the one that raised; (2) filter decision == longest configured
-dotted prefix rule computed independently; (3) replay == last N events given
+delivery except the one that raised; (2) per filter, decision == longest configured
+dotted prefix rule computed independently from that filter's own configuration; (3) replay == last N events given
 to the history observer.
 """
 from twisted.logger import (FilteringLogObserver, LimitedHistoryLogObserver, Logger, LogLevel,
@@ -21,7 +24,7 @@ ID = "C57"
 ENGINE = "tasks"
 LEVEL = "exploration"
 TECHNIQUE = "deterministic simulation: seeded event streams with raising / re-entrant observers (fault injection at the observer seam) vs fan-out, prefix-rule and ring-buffer reference models"
-QUICK_RUNS = 40000
+QUICK_RUNS = 32000
 TWIN_P = 0.08   # this share of the runs drives two independent instances of the scenario one after the other (detsim.runner._run_scenario)
 USES_DEPTH = True   # thorough tier: history length bound scales with sim.depth (1..3) beyond the quick tier\'s run indices
 BATCH = 150
@@ -30,10 +33,16 @@ COMPONENTS = {"real": ["twisted.logger.LogPublisher", "twisted.logger.Logger.emi
                        "twisted.logger.FilteringLogObserver", "twisted.logger.LimitedHistoryLogObserver"],
               "stub": ["observers (recording; raise / re-emit on tape's decision)"]}
 RULE = ("run = 5..40 operations on one LogPublisher with <=6 observers: emit (raw dict or through Logger, namespace of 1-4 dotted segments from "
-        "{a,b,ab,c}, any level), add/re-add/remove observer between emissions, set / clear namespace levels, query the predicate, replay the history; "
-        "per delivery the tape decides raise (observers are never / sometimes / always raising) and re-entrant emit (depth<=2); "
+        "{a,b,ab,c}, any level), add/re-add/remove observer between emissions, "
+        "set / clear namespace levels of one of the 1..3 live level filters (each with its own default; further filters are built in mid-run, after "
+        "the earlier ones were configured), query a filter's predicate, replay the history; "
+        "per delivery the tape decides raise (observers are never / sometimes / always raising) and re-entrant emit (depth<=2), the latter both "
+        "while an ordinary event and while the failure report of another observer is being delivered (there with half the probability; <=4 nested emits per top-level emission); "
         "non-trivial = at least one observer raised while >=2 observers were registered and at least one namespace level was configured")
 ASSUMPTIONS = ["observers are added/removed only between dispatches (statement does not cover mutation mid-dispatch)",
+               "an ordinary event logged into the publisher from inside an observer is an event like any other, whatever the observer was handed "
+               "(event or failure report): every registered observer, the one whose failure is being reported included, receives it once",
+               "level filters are independent objects: what is configured on one says nothing about another (each judged against its own model)",
                "events carry a non-empty namespace and a level (the predicate documents dropping events without them; the statement is silent)",
                "a failure report is recognised by carrying the raised exception in log_failure"]
 
@@ -73,21 +82,45 @@ def run(sim):
         obs_cfg.append((rp, sim.draw_choice([0.0, 0.0, 0.3], "reemit_p")))
     filt_at = sim.draw_int(0, nobs - 1, "filter_at")
     hist_at = sim.draw_int(0, nobs - 1, "history_at")
+    report_reemit = sim.draw_choice([True, False], "report_reemit")   # observers may log while handling a failure report
+    nfilt_init = sim.draw_choice([1, 2, 1, 3], "nfilters_init")
     sim.config = {"observers": nobs, "ops": nops, "history": hist_n, "default": default_level,
-                  "raise_p": [c[0] for c in obs_cfg], "reemit_p": [c[1] for c in obs_cfg], "filter_at": filt_at, "history_at": hist_at}
+                  "raise_p": [c[0] for c in obs_cfg], "reemit_p": [c[1] for c in obs_cfg], "filter_at": filt_at, "history_at": hist_at,
+                  "report_reemit": report_reemit, "filters_init": nfilt_init}
 
-    predicate = LogLevelFilterPredicate(defaultLogLevel=LogLevel.lookupByName(default_level))
-    cfg = {}                       # model of the configured namespace levels
-    passed = []                    # events the real filter let through
+    class Filt:
+        """One live level filter: real predicate + FilteringLogObserver, and the model of its own configuration."""
+        def __init__(self, n, default, at):
+            self.n = n
+            self.default = default
+            self.at = at               # index of the observer that forwards to this filter
+            self.cfg = {}              # model of the configured namespace levels
+            self.passed = []           # events the real filter let through
+            with sim.guard("filter-construct-raised"):
+                self.predicate = LogLevelFilterPredicate(defaultLogLevel=LogLevel.lookupByName(default))
+                self.flt = FilteringLogObserver(self.passed.append, [self.predicate])
 
-    def filtered_sink(event):
-        passed.append(event)
+    filters = [Filt(0, default_level, filt_at)]
+    fed_by = {filt_at: [filters[0]]}    # observer index -> the filters it forwards to
 
-    flt = FilteringLogObserver(filtered_sink, [predicate])
+    def new_filter():
+        n = len(filters)
+        d = sim.draw_choice(["info", "debug", "warn", "error", "critical"], "default_level")
+        at = sim.draw_int(0, nobs - 1, "filter_at")
+        sim.event("newfilter", n, d, at)
+        filters.append(Filt(n, d, at))
+        fed_by.setdefault(at, []).append(filters[-1])
+
+    for _ in range(nfilt_init - 1):
+        new_filter()
+
+    def pick_filter():
+        return filters[sim.draw_int(0, len(filters) - 1, "which_filter")] if len(filters) > 1 else filters[0]
+
     history = LimitedHistoryLogObserver(hist_n)
     hist_model = []                # events handed to the history observer, in order
 
-    st = {"eid": 0, "serial": 0, "depth": 0, "raised_multi": 0, "emits": 0, "configured": 0}
+    st = {"eid": 0, "serial": 0, "depth": 0, "raised_multi": 0, "emits": 0, "configured": 0, "nested": 0}
     expect = {}                    # key -> [observer index] that must receive it, in order
     got = {}                       # key -> [observer index] that did, in order
     raised_by = {}                 # serial -> observer index
@@ -146,23 +179,31 @@ def run(sim):
             sim.check("delivered-once", idx not in got[key], key[0], "observer %d received %r twice" % (idx, key))
             got[key].append(idx)
             # sinks
-            if idx == filt_at and key[0] == "e":
-                ns, level = event["log_namespace"], event["log_level"]
-                want = RANK[level.name] >= RANK[model_level(cfg, default_level, ns)]
-                before = len(passed)
-                flt(event)
-                did = len(passed) > before
-                sim.check("filter-decision", did == want, "pass" if want else "drop",
-                          lambda: "namespace %r level %s config %r default %s: filter %s, rule says %s" % (
-                              ns, level.name, cfg, cfg.get("", default_level), "passed" if did else "dropped", "pass" if want else "drop"))
-                sim.probe("filter_pass" if want else "filter_drop")
+            if key[0] == "e":
+                for f in fed_by.get(idx, ()):
+                    ns, level = event["log_namespace"], event["log_level"]
+                    want = RANK[level.name] >= RANK[model_level(f.cfg, f.default, ns)]
+                    before = len(f.passed)
+                    with sim.guard("filter-raised"):
+                        f.flt(event)
+                    did = len(f.passed) > before
+                    sim.check("filter-decision", did == want, "pass" if want else "drop",
+                              lambda: "filter %d of %d: namespace %r level %s config %r default %s: filter %s, rule says %s" % (
+                                  f.n, len(filters), ns, level.name, f.cfg, f.cfg.get("", f.default), "passed" if did else "dropped",
+                                  "pass" if want else "drop"))
+                    sim.probe("filter_pass" if want else "filter_drop")
+                    if f.n:
+                        sim.probe("later_filter_decided")
             if idx == hist_at:
                 hist_model.append(event)
                 history(event)
             # faults: re-entrant emission, raising
-            if key[0] == "e" and self.reemit_p and st["depth"] < 2 and sim.draw_bool(self.reemit_p, "reemit"):
+            # (an observer may log an ordinary event whatever it is handling: an event or the report of another observer's failure)
+            if ((key[0] == "e" or report_reemit) and self.reemit_p and st["depth"] < 2 and st["nested"] < 4
+                    and sim.draw_bool(self.reemit_p if key[0] == "e" else self.reemit_p / 2, "reemit")):
                 st["depth"] += 1
-                sim.fault("reentrant_emit")
+                st["nested"] += 1
+                sim.fault("reentrant_emit" if key[0] == "e" else "reentrant_emit_in_report")
                 try:
                     emit(reentrant_from=idx)
                 finally:
@@ -194,9 +235,11 @@ def run(sim):
 
     for _ in range(nops):
         sim.step(200 * sim.depth)
-        op = sim.draw_weighted([("emit", 8), ("add", 3), ("remove", 2), ("setlevel", 3), ("clear", 1), ("query", 2), ("replay", 1)], "op")
+        op = sim.draw_weighted([("emit", 8), ("add", 3), ("remove", 2), ("setlevel", 3), ("clear", 1), ("query", 2), ("replay", 1),
+                                ("newfilter", 1)], "op")
         if op == "emit":
             st["emits"] += 1
+            st["nested"] = 0
             emit()
             verify_created()
         elif op == "add":
@@ -219,24 +262,36 @@ def run(sim):
             else:
                 ns = ".".join(sim.draw_choice(SEGS, "seg") for _ in range(sim.draw_int(1, 3, "nseg")))
             lv = sim.draw_choice(LEVELS, "level")
-            sim.event("setlevel", ns or "<default>", lv.name)
-            cfg[ns] = lv.name
+            f = pick_filter()
+            sim.event("setlevel", f.n, ns or "<default>", lv.name)
+            f.cfg[ns] = lv.name
             st["configured"] += 1
+            if f.n:
+                sim.probe("later_filter_configured")
             with sim.guard("setlevel-raised"):
-                predicate.setLogLevelForNamespace(ns, lv)
+                f.predicate.setLogLevelForNamespace(ns, lv)
         elif op == "clear":
-            sim.event("clear")
-            cfg.clear()
+            f = pick_filter()
+            sim.event("clear", f.n)
+            f.cfg.clear()
             with sim.guard("clear-raised"):
-                predicate.clearLogLevels()
+                f.predicate.clearLogLevels()
         elif op == "query":
             ns = ".".join(sim.draw_choice(SEGS, "seg") for _ in range(sim.draw_int(1, 4, "nseg")))
+            f = pick_filter()
             with sim.guard("query-raised"):
-                real = predicate.logLevelForNamespace(ns)
-            want = model_level(cfg, default_level, ns)
-            sim.event("query", ns, want)
+                real = f.predicate.logLevelForNamespace(ns)
+            want = model_level(f.cfg, f.default, ns)
+            sim.event("query", f.n, ns, want)
             sim.check("level-for-namespace", real.name == want, "query",
-                      lambda: "namespace %r config %r default %s: real %s, rule %s" % (ns, cfg, default_level, real.name, want))
+                      lambda: "filter %d of %d: namespace %r config %r default %s: real %s, rule %s" % (
+                          f.n, len(filters), ns, f.cfg, f.default, real.name, want))
+        elif op == "newfilter":
+            # a further level filter comes to life while the earlier ones stay in use (their configuration must be unaffected)
+            if len(filters) < 3:
+                if any(g.cfg for g in filters):
+                    sim.probe("filter_built_beside_configured_one")
+                new_filter()
         else:
             out = []
             want = list(hist_model) if hist_n is None else (hist_model[max(0, len(hist_model) - hist_n):] if hist_n else [])
@@ -267,7 +322,7 @@ def run(sim):
             sim.check("history-replay", len(out) == len(want) and all(a is b for a, b in zip(out, want)), "replay",
                       lambda: "size %r: replayed %r, expected %r (of %d seen)" % (
                           hist_n, [key_of(e) for e in out], [key_of(e) for e in want], len(hist_model)))
-        sim.state((len(reg), min(len(cfg), 3), op))
+        sim.state((len(reg), min(len(filters[0].cfg), 3), op))
     sim.nontrivial = st["raised_multi"] > 0 and st["configured"] > 0
 
 
@@ -283,4 +338,12 @@ MUTANTS = [
     "_observer.py LogPublisher.__call__: only the first broken observer is reported: CAUGHT (delivered-to-all-in-order:report)",
     "_filter.py clearLogLevels: does not clear: CAUGHT",
     "_observer.py LogPublisher.__call__: observers iterated in reverse registration order: CAUGHT",
+    "round 4 (re-entrant emit from inside the delivery of a failure report; several live level filters):",
+    "_observer.py LogPublisher: broken observer kept on a 'disabled' list while its failure is reported through the publisher itself "
+    "(misses events logged by another observer while it handles the report): CAUGHT (delivered-to-all-in-order:e, ~500 runs)",
+    "_observer.py LogPublisher.__call__: events logged while the publisher is reporting a failure are dropped (re-entrancy flag): CAUGHT (delivered-to-all-in-order:e)",
+    "_observer.py LogPublisher.__call__: broken observer taken out of _observers while its report is delivered, put back afterwards: CAUGHT (delivered-to-all-in-order:e)",
+    "_filter.py LogLevelFilterPredicate: level table is a class attribute shared by all predicates: CAUGHT (level-for-namespace / filter-decision, ~120 runs)",
+    "_filter.py LogLevelFilterPredicate.__init__: level table shared through a module global: CAUGHT",
+    "_filter.py LogLevelFilterPredicate.__init__: default level stored on the class (last constructed filter's default wins after clearLogLevels): CAUGHT",
 ]
